@@ -130,7 +130,8 @@ theorem frame_mkRange {x : Str} (a b c : Int) : FrameM x (mkRange a b c) := by
   unfold mkRange; frame
 
 theorem frame_reduceArgsWith {x : Str} {p : EvalM (List (Option Val))} {k : EvalM (List (Str × Val))}
-    (hp : FrameM x p) (hk : FrameM x k) (oe : Bool) : FrameM x (reduceArgsWith p k oe) := by
+    (hp : FrameM x p) (hk : FrameM x k) (oe : Bool) (ex : Bool := true) :
+    FrameM x (reduceArgsWith p k oe ex) := by
   unfold reduceArgsWith; frame
 
 theorem frame_applyMethod {x : Str} (ln : Nat) (o : Option Val) (name : Str) (pos : List Val)
@@ -213,7 +214,7 @@ theorem frame_eval (x : Str) : ∀ n, mayWrite x n = false → FrameM x (eval n)
   | .dict _ kw, h => by
     simp only [mayWrite] at h
     have h2 := frame_evalKw x true kw [] h
-    have h3 := frame_reduceArgsWith (FrameM.pure (x := x) ([] : List (Option Val))) h2 false
+    have h3 := frame_reduceArgsWith (FrameM.pure (x := x) ([] : List (Option Val))) h2 false false
     simp only [eval]; frame2
   | .and_ _ l r, h => by
     simp only [mayWrite, Bool.or_eq_false_iff] at h
